@@ -14,6 +14,10 @@ const (
 	PSleep
 	PMapRange
 	PChanRecvBlocked
+	PSQLExec
+	PFileReload
+	PFileReloadFail
+	PWatchLost
 	PUser0    // first index available to engines
 	NumProbes = 96
 )
@@ -130,6 +134,7 @@ func Recv[T any](ch <-chan T) (T, bool) {
 	id := chanID(ch)
 	syncPoint(s, -1)
 	for {
+		pumpWatchers()
 		select {
 		case v, ok := <-ch:
 			return v, ok
@@ -244,4 +249,64 @@ var globalSeq int64
 func NextSeq() int64 {
 	globalSeq++
 	return globalSeq
+}
+
+// UserRec is a record logged by harness code running in task context (plugin wrappers, synthetic plugins).
+type UserRec struct {
+	Task int
+	Tag  int64
+	Inc  int
+	Step int64
+	Now  int64
+	Rec  any
+}
+
+// UserLog appends a record to the run's user log from task context; the scheduler-side world reads it with TakeUserLog.
+//
+//go:norace
+func UserLog(rec any) {
+	s := S
+	if s == nil {
+		return
+	}
+	r := UserRec{Step: s.Steps, Now: s.now, Rec: rec}
+	if t := s.cur; t != nil {
+		r.Task = t.ID
+		r.Tag = t.Tag
+		if r.Tag == 0 {
+			r.Tag = t.pendTag
+		}
+		r.Inc = t.Inc
+	}
+	s.userLog = append(s.userLog, r)
+}
+
+//go:norace
+func (s *Sim) TakeUserLog() []UserRec {
+	r := s.userLog
+	s.userLog = nil
+	return r
+}
+
+// CurTaskID returns the id of the running task (0 on the scheduler goroutine or in passthrough mode).
+//
+//go:norace
+func CurTaskID() int {
+	if s := S; s != nil && s.cur != nil {
+		return s.cur.ID
+	}
+	return 0
+}
+
+// CurTag returns the datagram id attributed to the running task.
+//
+//go:norace
+func CurTag() int64 {
+	if s := S; s != nil && s.cur != nil {
+		if s.cur.Tag != 0 {
+			return s.cur.Tag
+		}
+		return s.cur.pendTag
+	}
+	return 0
 }
